@@ -6,6 +6,8 @@ REPO=${VERIF_REPO:-/repo}
 HERE=$(cd "$(dirname "$0")/.." && pwd)
 B=${VERIF_ICINGA_BUILD:-${VERIF_BUILD:-$HERE/build}/icinga}
 mkdir -p "$B"
+# VERIF_ICINGA_PREBUILT=1: use the object files in $B as they are (scratch builds assembled by hand for mutation tests)
+[ -n "$VERIF_ICINGA_PREBUILT" ] && exit 0
 exec 9>"$B/.lock"
 flock 9
 if [ ! -f "$B/build.ninja" ]; then
